@@ -2,9 +2,14 @@ package c09
 
 import (
 	"context"
+	"errors"
 	"fmt"
 	"math/rand"
+	"net"
+	"os"
+	"regexp"
 	"sort"
+	"strconv"
 	"strings"
 	"time"
 
@@ -13,6 +18,7 @@ import (
 	"mellium.im/xmpp/jid"
 	"mellium.im/xmpp/stanza"
 
+	"mellium.im/xmpp/verifharness/bufconn"
 	"mellium.im/xmpp/verifharness/core"
 	"mellium.im/xmpp/verifharness/sess"
 	"mellium.im/xmpp/verifharness/xmltree"
@@ -511,11 +517,43 @@ func genScript(r *rand.Rand, i int) *script {
 			sc.Muts = append(sc.Muts, "local-close")
 		}
 	}
+	// a transport fault armed at a PRNG-chosen point; for write faults the next
+	// stanza echoes an id that makes the reply's start tag end near the 4096
+	// bytes of the output buffer
+	if round > 0 && r.Intn(8) == 0 && len(sc.Steps) > 0 {
+		kind := pick(r, "write-fail", "write-fail", "write-break", "read-timeout", "read-timeout-wrapped", "read-temporary", "read-plain", "read-deadline")
+		n := r.Intn(3)
+		if kind == "write-break" {
+			n = r.Intn(9000)
+		}
+		name := fmt.Sprintf("fault/%s/%d", kind, n)
+		if strings.HasPrefix(kind, "read-") && r.Intn(2) == 0 {
+			name += "/close-deadline"
+		}
+		pos := r.Intn(len(sc.Steps))
+		steps := append([]step{}, sc.Steps[:pos]...)
+		steps = append(steps, step{K: "act", Act: name})
+		rest := append([]step{}, sc.Steps[pos:]...)
+		if strings.HasPrefix(kind, "write-") {
+			for k := range rest {
+				if rest[k].K == "send" {
+					big := strings.Repeat("A", 3880+r.Intn(340))
+					rest[k].Raw = bigIDRe.ReplaceAllString(rest[k].Raw, "id='"+big+"'")
+					rest[k].Cuts = nil
+					break
+				}
+			}
+		}
+		sc.Steps = append(steps, rest...)
+		sc.Muts = append(sc.Muts, "fault-"+kind)
+	}
 	// the handlers' optional callbacks left unset (any round: the canonical
 	// stanzas must not need them either)
 	sc.NilCallbacks = r.Intn(6) == 0
 	return sc
 }
+
+var bigIDRe = regexp.MustCompile(`\bid='[^']*'`)
 
 // chooseSplit picks cut offsets (2 or 3 pieces; half of the time the first cut
 // is right after the start tag of the stanza that begins at replyOff) and the
@@ -632,6 +670,10 @@ func (e *env) runAct(name string) *action {
 		a.detached = true
 		e.mu.Unlock()
 		return a
+	}
+	if strings.HasPrefix(name, "fault/") {
+		e.armFault(strings.Split(name, "/")[1:])
+		return nil
 	}
 	switch name {
 	case "ibb.listen2":
@@ -785,6 +827,56 @@ func (e *env) consumeHistory(it *history.Iter) (int, error) {
 	_ = it.Result()
 	it.Close()
 	return n, err
+}
+
+type tempNetErr struct{}
+
+func (tempNetErr) Error() string   { return "bufconn: temporarily unavailable" }
+func (tempNetErr) Timeout() bool   { return false }
+func (tempNetErr) Temporary() bool { return true }
+
+// armFault arms a transport fault on the library's connection: the next (or
+// n-th next) Write or Read fails, or the application sets a read deadline in
+// the past; optionally a close deadline far in the future is set first.
+func (e *env) armFault(f []string) {
+	if len(f) < 2 || e.served() {
+		return
+	}
+	kind := f[0]
+	n, _ := strconv.Atoi(f[1])
+	if len(f) > 2 && f[2] == "close-deadline" {
+		e.c.Guard("SetCloseDeadline", func() { e.s.SetCloseDeadline(time.Now().Add(time.Hour)) })
+		e.c.Count("fault_with_close_deadline", 1)
+	}
+	reads, writes, _ := e.p.Lib.Ops()
+	plan := bufconn.NoFault()
+	timeout := &net.OpError{Op: "read", Net: "bufconn", Err: os.ErrDeadlineExceeded}
+	switch kind {
+	case "write-fail":
+		plan.FailWrite = writes + 1 + n
+	case "write-break":
+		plan.WriteBreakAfter = len(e.p.Lib.Written()) + n
+	case "read-timeout":
+		plan.FailRead, plan.Err = reads+1+n, timeout
+	case "read-timeout-wrapped":
+		plan.FailRead, plan.Err = reads+1+n, fmt.Errorf("transport: %w", timeout)
+	case "read-temporary":
+		plan.FailRead, plan.Err = reads+1+n, &net.OpError{Op: "read", Net: "bufconn", Err: tempNetErr{}}
+	case "read-plain":
+		plan.FailRead, plan.Err = reads+1+n, errors.New("connection reset by peer")
+	case "read-deadline":
+		// the application arms a read deadline on the session's connection that
+		// has already passed
+		e.c.Guard("SetReadDeadline", func() { e.s.Conn().SetReadDeadline(time.Now().Add(-time.Second)) })
+		e.c.Count("fault_armed:"+kind, 1)
+		e.faulted = true
+		return
+	default:
+		return
+	}
+	e.p.Lib.SetFault(plan)
+	e.faulted = true
+	e.c.Count("fault_armed:"+kind, 1)
 }
 
 // localClose is the application closing its output stream in mid-session.
